@@ -75,6 +75,14 @@ func tfSchema() *schema.BodySchema {
 				Detail: "GCP thing",
 				Attributes: map[string]*schema.AttributeSchema{
 					"project": {IsOptional: true, Constraint: schema.AnyExpression{OfType: cty.String}},
+					"labels":  {IsRequired: true, Constraint: schema.Map{Elem: schema.LiteralType{Type: cty.String}}},
+					"title":   {IsRequired: true, Constraint: schema.LiteralType{Type: cty.String}},
+				},
+				Blocks: map[string]*schema.BlockSchema{
+					"meta": {MinItems: 1, Labels: []*schema.LabelSchema{{Name: "kind"}}, Body: &schema.BodySchema{Attributes: map[string]*schema.AttributeSchema{
+						"key": {IsRequired: true, Constraint: schema.LiteralType{Type: cty.String}},
+						"obj": {IsRequired: true, Constraint: schema.LiteralType{Type: cty.Object(map[string]cty.Type{"a": cty.String, "b": cty.Number})}},
+					}}},
 				},
 			},
 		},
